@@ -1,4 +1,5 @@
 import RedoModel.DoFiles
+import RedoModel.Props.C13b
 import RedoModel.Lemmas.Paths
 /-!
 # C13 — .do rule selection order and script arguments
